@@ -1285,6 +1285,16 @@ func (c *control) dirR(colon, at bool, params []any) {
 				break
 			}
 		}
+		if last := len(digits) - 1; colon && digits[last] == '0' && digits[last-1] != '1' {
+			// No units or teen word took the ordinal form (the number ends in
+			// 0 and is not 0 so it has at least two digits), the last word is
+			// a tens word, hundred, or one of the cardinalTriples.
+			if w := words[0]; w[len(w)-1] == 'y' {
+				words[0] = w[:len(w)-1] + "ieth"
+			} else {
+				words[0] = w + "th"
+			}
+		}
 		if neg {
 			words = append(words, "negative")
 		}
